@@ -92,16 +92,33 @@ def gen_recipe(rnd, leaves):
             out.append(("plain", 0, 0, rnd.choice([7, "s", 2.5, True])))
             continue
         i, j = rnd.choice(nums), rnd.choice(nums)
-        op = rnd.choice(["same", "add", "sub", "mulc", "lt", "eq", "addc", "mul"])
+        op = rnd.choice(["same", "add", "sub", "mulc", "lt", "eq", "addc", "mul"] + INT_OPS)
+        if op in INT_OPS and not (type(leaves[i]) is int and abs(leaves[i]) < 100):
+            op = "same"
         if op == "mul" and (isinstance(leaves[i], float) or isinstance(leaves[j], float)):
             op = "add"      # a product of two fixed-point values is not exact on plain floats
         out.append((op, i, j, rnd.randint(-3, 3)))
     return out
 
 
+# operators applied to one small integer leaf x, written so that plain ints and secret ints stay inside every operator's domain;
+# the constants in them are constants of the circuit, never public values
+INT_OPS = ["rsubc", "modc", "rmodc", "floordivc", "rfloordivc", "rdivmodc", "shr", "andc", "rorc", "rxorc", "abs", "neg", "rmulc", "powc", "rtruedivc"]
+INT_FN = {
+    "rsubc": lambda x: 7 - x, "modc": lambda x: (x * x) % 7, "rmodc": lambda x: 100 % (x * x + 1), "floordivc": lambda x: (x * x) // 3,
+    "rfloordivc": lambda x: 100 // (x * x + 1), "rdivmodc": lambda x: divmod(50, x * x + 1)[1], "shr": lambda x: (x * x) >> 1,
+    "andc": lambda x: (x * x) & 6, "rorc": lambda x: 5 | ((x * x) & 3), "rxorc": lambda x: 9 ^ ((x * x) & 7), "abs": lambda x: abs(x),
+    "neg": lambda x: -x, "rmulc": lambda x: 3 * x, "powc": lambda x: x ** 2, "rtruedivc": lambda x: (6 * x) / 3,
+}
+
+
 def apply_recipe(recipe, leaves):
     res = []
     for op, i, j, c in recipe:
+        if op in INT_FN:
+            v = INT_FN[op](leaves[i])
+            res.append(int(v) if isinstance(v, float) else v)      # plain 6*x/3 is a whole float
+            continue
         if op == "plain":
             res.append(c)
         elif op == "same":
@@ -195,6 +212,13 @@ def worker(job):
         mix = set()
         conts = set()
         out_vars = []
+        # the wrapped calls may sit inside a region guarded by a secret condition (true or false): same public values, same
+        # returned values, and the same constraint system whatever the condition's value
+        guard_v = rnd.choice([None, None, None, 0, 1])
+        if guard_v is not None:
+            gbit = bo.PrivValBool(guard_v)
+            gbak = prt.add_guard(gbit)
+            conts.add("under-guard-%d" % guard_v)
         for call in range(ncalls):
             if rnd.random() < 0.25:
                 def boom(*a):
@@ -269,6 +293,8 @@ def worker(job):
                 R.violation("public-count-differs", "%d public values created, expected %d arguments + %d secret results" % (
                     len(gotv), len(exp_in), len(exp_out)), **det)
                 ok = False
+            elif guard_v == 0:
+                R.count("calls_under_false_guard_count_only")     # values inside a branch that is not taken are dummies
             elif gotv[:len(exp_in)] != [v % p for v in exp_in]:
                 R.violation(classify_order(gotv[:len(exp_in)], exp_in, p, "inputs"), "public inputs %s, arguments in order %s" % (
                     [v for _, v in pubs][:len(exp_in)], exp_in), **det)
@@ -280,13 +306,30 @@ def worker(job):
             out_vars.extend(idx for idx, _ in pubs[len(exp_in):])
             # returned plain structure
             R.count("plain_results_compared")
-            if not same_plain(got, plain_res):
+            if guard_v != 0 and not same_plain(got, plain_res):
                 R.violation("returned-structure-differs", "wrapped call returned %s, the undecorated function returns %r" % (repr(got)[:200], plain_res), **det)
                 ok = False
+        if guard_v is not None:
+            prt.restore_guard(gbak)
         # every output wire forced equal to the computed wire: outputs unknown, everything else fixed
         snap = recorder.snapshot()
+        if guard_v is not None and ok and specs:
+            tr1 = r1cs.canon_trace(snap)
+            N(bitlength=16, resolution=res_bits, modulus=p)
+            gbak = prt.add_guard(bo.PrivValBool(1 - guard_v))
+            try:
+                for args0, body0 in specs:
+                    prt.snark(body0)(*args0)
+                R.count("guard_value_trace_pairs")
+                if r1cs.canon_trace(recorder.snapshot()) != tr1 and "after-raising-call" not in conts:
+                    R.violation("trace-depends-on-guard-value", "the same wrapped calls emit a different constraint system under a true and under a false guard", calls=desc)
+            except Exception as e:  # noqa - under a true guard out-of-domain arguments raise as they do unguarded (C07 owns the converse)
+                R.count("raised_under_other_guard_value")
+            finally:
+                prt.restore_guard(gbak)
+            recorder.reset()
         # the constraint system of the same calls must not depend on the argument values (whole vs fractional floats, ...)
-        if ok and specs and case_no % 3 == 0 and not any("aliased" == c for c in conts):
+        if ok and specs and case_no % 3 == 0 and guard_v is None and not any("aliased" == c for c in conts):
             from vf import r1cs as _ev
             tr1 = _ev.canon_trace(snap)
             N(bitlength=16, resolution=res_bits, modulus=p)
@@ -302,7 +345,7 @@ def worker(job):
                 R.count("revalued_call_raised")
             recorder.reset()
             snap = dict(snap)
-        if out_vars and ok:
+        if out_vars and ok and guard_v != 0:
             fixed = {i: v for i, v in enumerate(snap["values"]) if i not in set(out_vars)}
             res = solve.solve(snap["constraints"], fixed, snap["p"], [{i: 1} for i in out_vars], maxleaves=2000)
             honest = tuple(snap["values"][i] % snap["p"] for i in out_vars)
